@@ -128,6 +128,7 @@ package setec
 //@   ensures [C12 lookupint.inv] storeInv(s) && !s.active.Mutex && handlesKept(s)
 //@   ensures [C16 lookupint.success] err == nil ==> (sec != nil && has(s.active.m, name) && has(s.active.f, name))
 //@   ensures [C16 lookupint.fail] err != nil ==> sec == nil
+//@   ensures [C16 lookupint.not-failed-by-others-cancellation] (err != nil && (errIs(err, context.DeadlineExceeded) || errIs(err, context.Canceled)) && ctxErrAt(ctx, clock) == nil) ==> ran
 //@   loop 0
 //@     invariant [state] storeInv(s) && !s.active.Mutex && ctx != nil && s.client != nil && handlesKept(s)
 //@     progress [C16 lookupint.retry-only-others-failure] !ran && lastCtxErr == nil
